@@ -27,6 +27,8 @@ def configs(tier):
             for first in ('peak', 'trough'):
                 for mid in (True, False):
                     out.append({'n': n, 'k': k, 'first': first, 'mid': mid, 'lead': False, 'trail': False})
+                    if n == 6 and k == 2:
+                        out.append({'n': n, 'k': k, 'first': first, 'mid': mid, 'lead': False, 'trail': False, 'dtype': 'int'})
                 # the supplied set may also start / end with a midpoint (decay before the first trough, ...)
                 if k <= 3 and n <= (8 if tier == 'quick' else 10):
                     for lead, trail in ((True, False), (False, True), (True, True)):
@@ -79,7 +81,7 @@ def run(ctx, cfg):
             ctx.assume(m <= n - 1)
             trail_pos = ctx.toint(m)
             (rises if kinds[-1] == 'trough' else decays).append(trail_pos)
-    sig = np.zeros(n)
+    sig = np.zeros(n, dtype=int) if cfg.get('dtype') == 'int' else np.zeros(n)      # only its length may matter
     try:
         pha = ph.extrema_interpolated_phase(
             sig, np.array(peaks, dtype=int), np.array(troughs, dtype=int),
